@@ -111,8 +111,9 @@ pub fn run_c01(tier: &str, seed: u64, model: &Model, corpus: Vec<Case>) -> Repor
     let cases = kmer_cases(tier, &mut rng, &mut rep);
     run_section(&mut rep, model, "kmers", cases, &impl_kmers, &judge_kmers);
     if tier == "thorough" && !sharded() {
-        // one record of more than 2^31 bytes: A^N followed by a short tail. Windows are local, so the expected stream is
-        // (0, 4^k - 1) for the N - k + 1 windows inside the homopolymer followed by the model's stream for A^(k-1) ++ tail.
+        // one record of more than 2^31 bytes: A^N followed by a short tail. By `kmers_homopolymer_prefix` (Props/C01, kernel-checked)
+        // the expected stream is (0, 4^k - 1) for the N - k + 1 windows inside the homopolymer followed by the model's stream for
+        // A^(k-1) ++ tail.
         let n: usize = (1usize << 31) + 1000;
         let tail = b"CGTNACGGTTAACCGT".to_vec();
         let mut big = vec![b'A'; n];
